@@ -3,18 +3,25 @@
 
   Requests (one line, words separated by spaces; bytes as lower-case hex, "-" = empty):
 
-    parse <hex> <dd> <nv> <codecs>       uefi.Parse in a fresh process
-                                           → "ok <tree digest> <node count>"  |  "<errclass>"
-    parsetree <hex> <dd> <nv> <codecs>   → "ok <canonical pre-order dump>"   |  "<errclass>"
+    parse <hex> <dd> c10 <codecs>       uefi.Parse in a fresh process
+                                          → "ok <tree digest> <node count> <x digest>"  |  "<errclass>"
+    parsetree <hex> <dd> c10 <codecs>   → "ok <canonical pre-order dump> || <extended dump>"   |  "<errclass>"
+    nvar <pol> <hex>                    NewNVarStore under erase polarity <pol> (decimal)
+                                          → "ok <store line>" | "err"
+    mefpt <hex>                         NewMEFPT + FreeSpaceOffset → "<table line>"
 
-  <errclass> ∈ err | panic | fatal | hang | fuel.  Dump format: FianoModel/Uefi/Dump.lean
-  (= harness/props/uefi/dump.go).
+  <errclass> ∈ err | panic | fatal | hang | fuel | pol-mismatch.  Dump format: FianoModel/Uefi/Dump.lean
+  (= harness/props/uefi/dump.go); extended dump (NVAR stores, ME partition tables): FianoModel/Uefi/DumpC04.lean
+  (= harness/props/c04/xdump.go); <x digest> is the FNV-1a of the extended dump.
 
-  The three extra words are the parser's configuration and the behaviour of the parts the UEFI core
-  model treats as parameters (`Hooks`), as observed by the harness on the implementation:
+  The configuration words are the parser's switches and the behaviour of the one part the UEFI core
+  model still treats as a parameter, the decompressors:
     <dd>      0 | 1                  uefi.DisableDecompression
-    <nv>      "-" | k,k,…            NVAR hook: k = <fnv1a-64 of the body, 16 hex>:<body length> of every
-                                     RAW/NVAR-GUID file body on which NewNVarStore succeeded
+    c10       the NVAR hook is C10's model of NewNVarStore: the driver runs the model function `parseC10`
+              (FaithfulNvarHook.lean).  The NVAR parser needs the erase polarity in force, which the parse
+              itself fixes (first volume): `parseC10` parses under 0xFF, and when the parse ends with
+              another polarity, parses again under that one; the answer is given only if the second run
+              ends with the polarity it assumed, else "pol-mismatch".
     <codecs>  "-" | e,e,…            codec hook: e = <fnv1a-64 of the decoder's input>:<input length>:<out hex | !>
                                      ("!" = the decoder returned an error); an input that is not listed
                                      decodes to an error.  The codec *names* and GUIDs are the model's
@@ -24,6 +31,7 @@
 import Driver.Common
 import FianoModel.Uefi.Dump
 import FianoModel.Uefi.Spec
+import FianoModel.Uefi.DumpC04
 
 open Fiano Fiano.Uefi Driver
 
@@ -42,13 +50,6 @@ def parseCodecs (s : String) : Option (List CodecEntry) :=
       else (parseHex o).map (fun b => ⟨f ++ ":" ++ l, some b⟩)
     | _ => none)
 
-def parseNv (s : String) : Option (List String) :=
-  if s = "-" then some [] else
-  (s.splitOn ",").mapM (fun e =>
-    match e.splitOn ":" with
-    | [f, l] => some (f ++ ":" ++ l)
-    | _ => none)
-
 def codecNames : List String := ["BROTLI", "LZMA", "LZMAX86", "ZLIB"]
 
 def lookupCodec (tbl : List CodecEntry) (x : Bytes) : Option Bytes :=
@@ -57,31 +58,53 @@ def lookupCodec (tbl : List CodecEntry) (x : Bytes) : Option Bytes :=
   | some e => e.out
   | none => none
 
-def mkHooks (dd : Bool) (nv : List String) (tbl : List CodecEntry) : Hooks :=
+/-- hooks without NVAR parser (the caller wraps them with `nvHooks`) -/
+def mkHooks (dd : Bool) (tbl : List CodecEntry) : Hooks :=
   { codec := fun g =>
       match (Spec.codecGuids.zip codecNames).find? (fun p => p.1 == g) with
       | some (_, name) => some { name := name, decode := lookupCodec tbl, encode := fun _ => none }
       | none => none
-    disableDecompression := dd
-    nvarParse := fun body => if nv.contains (keyOf body) then some ⟨body, body.length⟩ else none }
+    disableDecompression := dd }
+
+/-- `uefi.Parse` in a fresh process with C10's `NewNVarStore` as the NVAR hook: the model's `parseC10`
+    (FaithfulNvarHook.lean; theorem `parse_c10_faithful` of Props/C04.lean is about exactly this function);
+    `Sum.inl` = error class -/
+def runC10 (h0 : Hooks) (b : Bytes) : Sum String (Tree × UInt8) :=
+  match parseC10 h0 (defaultFuel b) b {} with
+  | .ok r => .inr r
+  | .error (some e) => .inl (errName e)
+  | .error none => .inl "pol-mismatch"
 
 def withArgs (img dd nv cs : String) (k : Bytes → Hooks → String) : String :=
-  match parseHex img, parseNv nv, parseCodecs cs with
-  | some b, some n, some c =>
-    if dd = "0" then k b (mkHooks false n c)
-    else if dd = "1" then k b (mkHooks true n c)
+  match parseHex img, parseCodecs cs with
+  | some b, some c =>
+    if nv ≠ "c10" then "bad-op"
+    else if dd = "0" then k b (mkHooks false c)
+    else if dd = "1" then k b (mkHooks true c)
     else "bad-op"
-  | _, _, _ => "bad-op"
+  | _, _ => "bad-op"
 
 def handle : List String → String
   | ["parse", img, dd, nv, cs] => withArgs img dd nv cs fun b h =>
-    match parse h b with
-    | .ok t => s!"ok {digestOf t} {(dumpTree t).length}"
-    | .error e => errName e
+    match runC10 h b with
+    | .inr (t, p) => s!"ok {digestOf t} {(dumpTree t).length} {DumpC04.xDigest p t}"
+    | .inl e => e
   | ["parsetree", img, dd, nv, cs] => withArgs img dd nv cs fun b h =>
-    match parse h b with
-    | .ok t => s!"ok {dumpText t}"
-    | .error e => errName e
+    match runC10 h b with
+    | .inr (t, p) => s!"ok {dumpText t} || {DumpC04.xText p t}"
+    | .inl e => e
+  | ["nvar", pol, img] =>
+    match pol.toNat?, parseHex img with
+    | some p, some b =>
+      if p ≥ 256 then "bad-op" else
+      match Nvram.parseStore p b with
+      | .ok s => "ok " ++ DumpC04.showStore p (s.length + 2) s
+      | .error _ => "err"
+    | _, _ => "bad-op"
+  | ["mefpt", img] =>
+    match parseHex img with
+    | some b => DumpC04.showFpt b
+    | none => "bad-op"
   | _ => "bad-op"
 
 def main : IO Unit := loop handle
